@@ -185,6 +185,23 @@ def translate_source():
             ok = True
     if not ok:
         raise Refused('calculate_aic return expression')
+    # tools/cdd/results.py calculate_results: dofv_influential = [elt > 3.86 for elt in dofv]
+    import pharmpy.tools.cdd.results as cddres
+    fn = _func_ast(cddres, 'calculate_results')
+    lims = []
+    for node in ast.walk(fn):
+        if isinstance(node, ast.Assign) and len(node.targets) == 1 and getattr(node.targets[0], 'id', None) == 'dofv_influential':
+            v = node.value
+            if not (isinstance(v, ast.ListComp) and isinstance(v.elt, ast.Compare) and len(v.elt.ops) == 1
+                    and isinstance(v.elt.ops[0], ast.Gt) and isinstance(v.elt.left, ast.Name)
+                    and isinstance(v.elt.comparators[0], ast.Constant) and len(v.generators) == 1
+                    and getattr(v.generators[0].iter, 'id', None) == 'dofv' and not v.generators[0].ifs
+                    and getattr(v.generators[0].target, 'id', None) == v.elt.left.id):
+                raise Refused('dofv_influential expression')
+            lims.append(float(v.elt.comparators[0].value))
+    if len(lims) != 1:
+        raise Refused('dofv_influential not assigned exactly once')
+    out.append(f'Definition influence_limit_src : Q := {ct.q(F(lims[0]))}.')
     return '\n'.join(out) + '\n'
 
 
@@ -201,8 +218,10 @@ Lemma gen_alpha_more : Qeq_bool alpha_more_src alpha_more = true /\\ Qeq_bool al
 Proof. split; vm_compute; reflexivity. Qed.
 Lemma gen_aic_factor : aic_factor_src = 2%Z.
 Proof. vm_compute. reflexivity. Qed.
+Lemma gen_influence_limit : Qeq_bool influence_limit_src influence_limit = true.
+Proof. vm_compute. reflexivity. Qed.
 '''
-N_GEN_OBLIGATIONS = 6
+N_GEN_OBLIGATIONS = 7
 
 
 def regenerated_obligations(ctx):
@@ -214,7 +233,7 @@ def regenerated_obligations(ctx):
         return
     f = ctx.rundir / 'Gen.v'
     f.write_text('From Coq Require Import QArith ZArith List.\nFrom Coq Require String.\nImport String.StringSyntax.\n'
-                 'Delimit Scope string_scope with string.\nFrom PV Require Import C19.Model.\nImport ListNotations.\n'
+                 'Delimit Scope string_scope with string.\nFrom PV Require Import C19.Model C19.Stats3.\nImport ListNotations.\n'
                  + text + GEN_OBLIGATIONS)
     rc, out = coqc_file(f)
     if rc != 0:
@@ -1418,6 +1437,11 @@ def replay(ctx, rep):
             v = ctx.run_cases('replay', 'C19.Model C19.Stats', 'stcase', [term], 'stverdict')[0]
         print('stats_model', rep['stats_model'], 'tags', v)
         return 1 if v else 0
+    if 'stats' in rep and rep['stats'].get('part') == 'deltaofv':
+        from harness.props import c19_stats
+        c19_stats.delta_ofv_batch(ctx, 1, only_seeds=[rep['stats']['seed']])
+        print('deltaofv', rep['stats'], ctx.coverage['cdd_delta_ofv_cases'])
+        return 1 if ctx.violations else 0
     if 'stats' in rep:
         from harness.props import c19_stats
         n, fails = c19_stats.run_one(rep['stats']['part'], rep['stats']['seed'])
